@@ -49,3 +49,25 @@ CONTRACTS[I + "note_in_range"] = dict(
     ensures=[("inside-iff-between-the-range-ends",
               "result == (pitch(self.range[0]) <= pitch(note) and pitch(note) <= pitch(self.range[1]))")],
     properties=["C14"], battery="instr_note")
+
+# copying / merging another container: the receiver ends with its OWN list (never the argument's), the argument is left
+# as it was, and the result holds exactly the pitches of both, pitch-ordered and duplicate-free
+_OTHER_OK = "all([is_name(n.name) for n in notes.notes])"
+CONTRACTS[M + "add_notes"] = dict(
+    params={"self": "NoteContainer", "notes": "NoteContainer"},
+    requires=[("pitch-ordered-duplicate-free", RI), ("valid-notes", _OTHER_OK)],
+    old={"old_pitches": "[pitch(n) for n in self.notes]", "other_pitches": "[pitch(n) for n in notes.notes]",
+         "other_list": "notes.notes", "other_len": "len(notes.notes)"},
+    returns="list[any]",
+    ensures=[("returns-its-own-note-list", "same_object(result, self.notes)"),
+             ("own-list-never-the-arguments", "not same_object(self.notes, notes.notes)"),
+             ("argument-left-as-it-was", "len(notes.notes) == other_len and list_prefix_same(notes.notes, other_list, other_len)"),
+             ("still-pitch-ordered-and-duplicate-free", SORTED),
+             ("keeps-every-old-pitch", "all([any([pitch(n) == p for n in self.notes]) for p in old_pitches])"),
+             ("holds-every-pitch-of-the-argument", "all([any([pitch(n) == p for n in self.notes]) for p in other_pitches])"),
+             ("and-nothing-else", "all([any([pitch(n) == p for p in old_pitches + other_pitches]) for n in self.notes])")],
+    modifies=["param:self", "param:self.notes"],
+    inline_callees=[M + "add_note"],
+    split=[{"field_types": {"self.notes": a, "notes.notes": b}} for a in SIZES[:2] for b in SIZES], split_is_domain=True,
+    notes="domain: receiver holding 0 or 1 notes, argument holding 0, 1 or 2 notes, arbitrary pitches and spellings",
+    properties=["C12", "C13", "C15"], battery="nc_merge")
